@@ -857,7 +857,8 @@ func instrumentLocks(scratch string) map[string]string {
 			return nil
 		}
 		src, err := os.ReadFile(path)
-		if err != nil || !(bytes.Contains(src, []byte(".Lock()")) || bytes.Contains(src, []byte(".RLock()"))) {
+		if err != nil || !(bytes.Contains(src, []byte(".Lock()")) || bytes.Contains(src, []byte(".RLock()")) ||
+			bytes.Contains(src, []byte(".View(")) || bytes.Contains(src, []byte(".Update(")) || bytes.Contains(src, []byte(".NewTransaction("))) {
 			return nil
 		}
 		fset := token.NewFileSet()
@@ -881,6 +882,28 @@ func instrumentLocks(scratch string) map[string]string {
 				list = b.Body
 			}
 			for _, st := range list {
+				// transaction starts: a statement whose top-level call is x.View(..) / x.Update(..)
+				// / x.NewTransaction(..) (expression, assignment, definition or return)
+				var top ast.Expr
+				switch t := st.(type) {
+				case *ast.ExprStmt:
+					top = t.X
+				case *ast.AssignStmt:
+					if len(t.Rhs) == 1 {
+						top = t.Rhs[0]
+					}
+				case *ast.ReturnStmt:
+					if len(t.Results) == 1 {
+						top = t.Results[0]
+					}
+				}
+				if tc, ok := top.(*ast.CallExpr); ok {
+					if sel, ok := tc.Fun.(*ast.SelectorExpr); ok && (sel.Sel.Name == "View" || sel.Sel.Name == "Update" || sel.Sel.Name == "NewTransaction") {
+						line := fset.Position(tc.Lparen).Line
+						edits = append(edits, ins{fset.Position(st.Pos()).Offset, fmt.Sprintf("verifhook.Point(%q); ", fmt.Sprintf("txn:%s:%d", filepath.Base(path), line))})
+						continue
+					}
+				}
 				es, ok := st.(*ast.ExprStmt)
 				if !ok {
 					continue
